@@ -22,6 +22,10 @@ source's get_map, or (real WMSSource/WMSClient over a mock HTTP client) after WM
 request parameter; two request threads on ONE TileManager, the first held inside MetaGrid.meta_tile;
 (d) upstream faults: one response of a request is not cacheable (substitute image) or ends in the middle of the PNG
 image data; afterwards the same request again without fault; compared with `request_with_faults`.
+(e) the faults of (d) also include an upstream request that raises SourceError (the request must fail, no tile may be
+answered without image by a request that looks successful); (f) a source with alpha and a clipping coverage
+(clip: true, inside the grid extent) in front of an opaque cache: tiles cut out of meta tiles that cross the coverage
+border are compared byte by byte with the same tile fetched alone, sampled pixels with `model_clip_colour`.
 Oracle (Python, exact fractions, independent of the model): stored tile == same tile fetched alone through a
 TileManager without meta tiling (bit-exact when no buffer is cut off at the grid border, <= 1 px otherwise);
 no background pixel more than one pixel inside the extent; every requested tile is produced; one upstream
@@ -243,7 +247,7 @@ class Upstream:
         self.timeouts = 0
         self.fault_at = fault_at or {}        # index of the upstream request -> 'uncacheable' | 'truncate'
         self.n_requests = 0
-        self.faulted = {'uncacheable': [], 'truncate': []}
+        self.faulted = {'uncacheable': [], 'truncate': [], 'error': []}
 
     def meet(self):
         """creators running in parallel wait for each other here (bounded)."""
@@ -272,6 +276,10 @@ class Upstream:
             self.n_requests += 1
             if fault:
                 self.faulted[fault].append(bbox)
+        if fault == 'error':
+            # a transient upstream failure (HTTP error, timeout) without on_error handler
+            from mapproxy.source import SourceError
+            raise SourceError('upstream failure (injected)')
         if fault == 'uncacheable':
             # what an on_error handler with cache: false answers: a blank image that must not be stored
             from PIL import Image
@@ -293,6 +301,9 @@ class Upstream:
 
     def get_map(self, query):
         from mapproxy.image import ImageSource
+        if self.coverage is not None and not self.coverage.intersects(query.bbox, query.srs):
+            from mapproxy.layer import BlankImage
+            raise BlankImage()       # what WMSSource / TiledSource do outside their coverage
         self.meet()
         bbox, size = tuple(query.bbox), tuple(query.size)
         img, cacheable = self.answer(bbox, size)
@@ -405,9 +416,18 @@ def run_manager(gc, picture, cfg, coords, cache=None, rendezvous=None, fault_at=
         opts = ImageOptions(transparent=False, format='image/png', mode='RGB')
     events, lock = [], threading.Lock()
     bulk = cfg['bulk']
-    up = Upstream(picture, events, lock, opts, supports_meta=not bulk, as_buffer=cfg.get('as_buffer', False),
+    src_opts = opts
+    if cfg.get('clip'):
+        # a source with alpha and a clipping coverage in front of an opaque cache
+        src_opts = ImageOptions(transparent=True, format='image/png', mode='RGBA')
+        opts = ImageOptions(transparent=False, format='image/png', mode='RGB')
+    up = Upstream(picture, events, lock, src_opts, supports_meta=not bulk, as_buffer=cfg.get('as_buffer', False),
                   rendezvous=rendezvous, fault_at=fault_at)
-    src = up.wms_source() if (cfg.get('source') == 'wms' and not bulk) else up
+    if cfg.get('clip'):
+        from mapproxy.util.coverage import BBOXCoverage
+        from mapproxy.srs import SRS
+        up.coverage = BBOXCoverage(tuple(float(v) for v in cfg['clip']), SRS(3857), clip=True)
+    src = up.wms_source() if (cfg.get('source') == 'wms' and not bulk and not cfg.get('clip')) else up
     run_manager.last = {'upstream': up, 'events': events}
     if cache is None:
         cache = RecordingCache(events, lock)
@@ -766,7 +786,7 @@ def run(ctx):
 
     grids = []
     defs = []
-    T = {name: ([], []) for name in ('misc', 'meta_tile', 'minimal', 'plan', 'pixel', 'colour', 'faults')}
+    T = {name: ([], []) for name in ('misc', 'meta_tile', 'minimal', 'plan', 'pixel', 'colour', 'faults', 'clip')}
 
     def add(name, term, desc):
         T[name][0].append(term)
@@ -934,6 +954,109 @@ def run(ctx):
             e2e(gc, cfg, coords, level, 'concurrent', kind=kind, history=dict(sched, this=name),
                 observed=(steps, served, has_meta, None), cached_override=cached_a, locked=cached_b)
 
+    def run_clip(gc, level, spec=None):
+        """a source with alpha and a clipping coverage (clip: true) in front of an opaque cache: a tile cut out of a
+        meta tile that crosses the coverage border equals the same tile fetched alone (merge_images clips and draws
+        on the background on both ways)."""
+        r = gc.res[level]
+        nx, ny = gc.grid_size(level)
+        if spec is None:
+            xa = rng.randrange(nx)
+            ya = rng.randrange(ny)
+            xb, yb = min(nx - 1, xa + rng.randrange(0, 3)), min(ny - 1, ya + rng.randrange(0, 2))
+            lo, hi = gc.tile_rect(xa, ya, level), gc.tile_rect(xb, yb, level)
+            d = [rng.choice([0, 0, 1, 2, -1]) for _ in range(4)]
+            cov = [min(lo[0], hi[0]) + d[0] * r, min(lo[1], hi[1]) + d[1] * r, max(lo[2], hi[2]) - d[2] * r, max(lo[3], hi[3]) - d[3] * r]
+            # the property speaks about the grid extent: keep the coverage inside it
+            cov = [max(cov[0], gc.bbox[0]), max(cov[1], gc.bbox[1]), min(cov[2], gc.bbox[2]), min(cov[3], gc.bbox[3])]
+            if cov[2] - cov[0] < 3 * r or cov[3] - cov[1] < 3 * r:
+                return
+            cfg = {'meta_size': rng.choice([[2, 2], [3, 2], [2, 1], [1, 2], [4, 4]]), 'meta_buffer': rng.choice([0, 0, 0, 2, 5]),
+                   'minimize': rng.random() < 0.3, 'bulk': False, 'concurrent': 1, 'as_buffer': rng.random() < 0.2, 'source': 'mock',
+                   'clip': [float(v) for v in cov]}
+            coords = []
+            for y in range(ya, yb + 1):
+                for x in range(xa, xb + 1):
+                    t = gc.tile_rect(x, y, level)
+                    if t[0] < cov[2] and cov[0] < t[2] and t[1] < cov[3] and cov[1] < t[3]:
+                        coords.append((x, y, level))
+            if not coords:
+                return
+            rng.shuffle(coords)
+            coords = coords[:rng.randrange(1, len(coords) + 1)]
+            spec = {'config': cfg, 'tiles': coords}
+        cfg = spec['config']
+        coords = [tuple(c) for c in spec['tiles']]
+        cov = [frac(v) for v in cfg['clip']]
+        if not gc.can_scale(*cfg['clip']) or cov[0] >= cov[2] or cov[1] >= cov[3]:
+            return
+        q = int(gc.res[level] * gc.S)
+        picture = Picture(gc, q, 'rgba')
+        rep = {'grid': gc.spec, 'config': cfg, 'level': level, 'tiles': [list(c) for c in coords],
+               'picture': 'rgba source with clip coverage, opaque cache'}
+        steps, served, has_meta, err = run_manager(gc, picture, cfg, coords)
+        ctx.count('clip_coverage')
+        ctx.case(('clip', json.dumps(rep, sort_keys=True)), True,
+                 dict(rep, stored=[[c for c, _ in s[1]] for s in steps][:4]) if (steps is not None and len(ctx.samples) < 6) else None)
+        if err is not None:
+            ctx.fail('tile-manager-raises', 'TileManager raised %s' % err, rep)
+            return
+        valid = []
+        for c in coords:
+            if c not in valid:
+                valid.append(c)
+        for c, img in served:
+            if c is not None and img is None:
+                ctx.fail('requested-tile-not-produced', 'tile %r (intersects the coverage) is answered without image' % (c,), rep)
+        buf = cfg['meta_buffer'] if has_meta else 0
+        gx0, gy0, gx1, gy1 = gc.bbox
+        ms = cfg['meta_size'] or [1, 1]
+        mgl = mg_lit(gc, ms, buf)
+        how = '(HowMinimal %s)' % llit(valid, coord_lit) if (cfg['minimize'] and len(valid) > 1) else 'HowMeta'
+        for reqs, rec in steps:
+            for coord, img in rec:
+                rect = gc.tile_rect(coord[0], coord[1], level)
+                if not (rect[0] < cov[2] and cov[0] < rect[2] and rect[1] < cov[3] and cov[1] < rect[3]):
+                    continue        # outside the coverage: fetched alone there is no tile at all
+                # the same tile fetched alone through the same source and cache options
+                key = (gc.name, coord, 'clip', tuple(cfg['clip']))
+                if key not in ref_cache:
+                    scfg = {'meta_size': None, 'meta_buffer': None, 'minimize': False, 'bulk': False, 'concurrent': 1, 'clip': cfg['clip']}
+                    st, sv, hm, er = run_manager(gc, picture, scfg, [coord])
+                    ref_cache[key] = st[0][1][0][1] if (er is None and st and st[0][1]) else None
+                ref = ref_cache[key]
+                (bx0, bx1), (by0, by1) = block_of(gc, cfg, valid, level, coord, has_meta)
+                lo, hi = gc.tile_rect(bx0, by0, level), gc.tile_rect(bx1, by1, level)
+                box = (min(lo[0], hi[0]) - buf * r, min(lo[1], hi[1]) - buf * r, max(lo[2], hi[2]) + buf * r, max(lo[3], hi[3]) + buf * r)
+                untruncated = buf == 0 or (box[0] >= gx0 and box[1] >= gy0 and box[2] <= gx1 and box[3] <= gy1)
+                if ref is None:
+                    ctx.fail('single-tile-fetch-fails', 'tile %r intersects the coverage but fetched alone it is not produced' % (coord,), rep)
+                elif untruncated:
+                    ctx.count('clip:compared_with_tile_fetched_alone')
+                    if img.mode != ref.mode or img.size != ref.size or img.tobytes() != ref.tobytes():
+                        a, b = picture.decode(img), picture.decode(ref)
+                        where = [(j, k) for k in range(min(len(a), len(b))) for j in range(min(len(a[0]), len(b[0]))) if a[k][j] != b[k][j]][:1]
+                        ctx.fail('tile-differs-from-tile-fetched-alone',
+                                 'tile %r cut out of a meta tile (mode %s) differs from the tile fetched alone (mode %s), first at %r: %r / %r; '
+                                 'source with clip coverage, no buffer cut off' % (
+                                     coord, img.mode, ref.mode, where, where and a[where[0][1]][where[0][0]], where and b[where[0][1]][where[0][0]]),
+                                 dict(rep, tile=coord))
+                else:
+                    ctx.count('clip:not_compared_buffer_cut_off')
+                # correspondence: pixels at least two pixels away from the coverage border
+                got = picture.decode(img)
+                for _ in range(ctx.n(4, 6)):
+                    j, k = rng.randrange(gc.tw), rng.randrange(gc.th)
+                    px0, px1 = rect[0] + j * r, rect[0] + (j + 1) * r
+                    py1, py0 = rect[3] - k * r, rect[3] - (k + 1) * r
+                    inside = px0 >= cov[0] + 2 * r and px1 <= cov[2] - 2 * r and py0 >= cov[1] + 2 * r and py1 <= cov[3] - 2 * r
+                    outside = px1 <= cov[0] - 2 * r or px0 >= cov[2] + 2 * r or py1 <= cov[1] - 2 * r or py0 >= cov[3] + 2 * r
+                    if not (inside or outside) or j >= img.size[0] or k >= img.size[1]:
+                        continue
+                    add('clip', '(%s, %d, %s, %s, %s, %d, %d, Some (%d, %d, %d, %d))' % (
+                        (mgl, q, how, blit(inside), coord_lit(coord), j, k) + tuple(got[k][j])),
+                        dict(rep, tile=coord, pixel=(j, k), inside_coverage=inside, rgba=got[k][j]))
+
     def run_faults(gc, level, kind, spec=None):
         """an upstream fault during one request (a response that must not be cached / a response that ends in the
         middle of the image data), then the same request again without fault, on one cache."""
@@ -941,7 +1064,7 @@ def run(ctx):
             cfg = gen_cfg(rng, gc)
             cfg['concurrent'] = 1
             cfg['source'] = 'mock'
-            fault = rng.choice(['uncacheable', 'uncacheable', 'truncate'])
+            fault = rng.choice(['uncacheable', 'uncacheable', 'truncate', 'error', 'error'])
             if fault == 'truncate':
                 cfg['bulk'] = False
                 if cfg['meta_size'] == [1, 1] and not cfg['meta_buffer']:
@@ -962,13 +1085,19 @@ def run(ctx):
         up, events = last['upstream'], last['events']
         requests = [(ev[2], ev[3]) for ev in events if ev[0] == 'req']
         records = [rec for ev in events if ev[0] == 'store' for rec in ev[2]]
-        bad, cut = up.faulted['uncacheable'], up.faulted['truncate']
-        ctx.count('faults:' + ('uncacheable' if bad else 'truncated' if cut else 'none_hit'))
+        bad, cut, errs = up.faulted['uncacheable'], up.faulted['truncate'], up.faulted['error']
+        ctx.count('faults:' + ('uncacheable' if bad else 'truncated' if cut else 'upstream_error' if errs else 'none_hit'))
         ctx.case(('faults', json.dumps(rep, sort_keys=True)), True,
                  dict(rep, requests=requests[:4], stored=[c for c, _ in records][:8], error=err) if len(ctx.samples) < 6 else None)
-        if err is not None and not cut:
+        if err is not None and not cut and not errs:
             ctx.fail('tile-manager-raises', 'TileManager raised %s' % err, rep)
             return
+        if err is None:
+            # a request that does not fail answers every requested tile with an image (whatever the upstream did)
+            lost = [c for c, img in (served or []) if c is not None and img is None]
+            if lost:
+                ctx.fail('requested-tile-not-produced', 'tiles %r are answered without image by a request that did not fail '
+                         '(upstream fault: %r)' % (lost, spec['fault_at']), rep)
 
         def reference(coord):
             key = (gc.name, coord, q)
@@ -993,12 +1122,12 @@ def run(ctx):
         ms = cfg['meta_size'] or [1, 1]
         mgl = mg_lit(gc, ms, 0 if (cfg['bulk'] or not has_meta) else (cfg['meta_buffer'] or 0))
         blist = lambda l: llit(l, gc.zbbox)   # noqa
-        if any(sum(1 for rq in requests if rq[0] == b) > 1 for b in bad + cut):
+        if any(sum(1 for rq in requests if rq[0] == b) > 1 for b in bad + cut + errs):
             # the model names a faulted response by its bbox: not comparable when two requests have the same bbox
             ctx.count('faults:not_compared_same_bbox_twice')
         else:
-            add('faults', '(%s, %s, %s, %s, %s, %s, %s, Some (%s, %s, %s))' % (
-                mgl, blit(has_meta), blit(cfg['minimize']), blit(cfg['bulk'] and has_meta), blist(bad), blist(cut),
+            add('faults', '(%s, %s, %s, %s, %s, %s, %s, %s, Some (%s, %s, %s))' % (
+                mgl, blit(has_meta), blit(cfg['minimize']), blit(cfg['bulk'] and has_meta), blist(bad), blist(cut), blist(errs),
                 llit(valid, coord_lit), llit(requests, lambda rq: '(%s, %s)' % (gc.zbbox(rq[0]), z2(rq[1]))),
                 llit([c for c, _ in records], coord_lit), blit(err is not None)),
                 dict(rep, requests=requests, stored=[c for c, _ in records], error=err))
@@ -1050,7 +1179,9 @@ def run(ctx):
     # ---- corpus first
     for item in load_corpus():
         gc = new_grid(item['grid'])
-        if 'faults' in item:
+        if 'clip' in item:
+            run_clip(gc, item['level'], spec=item['clip'])
+        elif 'faults' in item:
             run_faults(gc, item['level'], item.get('picture', 'cells'), spec=item['faults'])
         elif 'concurrent_requests' in item:
             run_concurrent(gc, item['level'], item.get('picture', 'cells'), spec=item['concurrent_requests'])
@@ -1140,6 +1271,8 @@ def run(ctx):
         for _ in range(ctx.n(2, 5) if e2e_levels else 0):
             run_concurrent(gc, rng.choice(e2e_levels), rng.choice(['cells', 'cells', 'rgba']))
         for _ in range(ctx.n(3, 8) if e2e_levels else 0):
+            run_clip(gc, rng.choice(e2e_levels))
+        for _ in range(ctx.n(3, 8) if e2e_levels else 0):
             run_faults(gc, rng.choice(e2e_levels), rng.choice(['cells', 'cells', 'rgba', 'rgb']))
 
     dtext = '\n'.join(defs)
@@ -1161,11 +1294,14 @@ def run(ctx):
     ctx.corr_check('stored_pixel', I, 'mgrid * Z * how * coord * Z * Z * option (option (Z * Z))', T['pixel'][0],
                    "fun c => let '(m, q, h, t, j, k, obs) := c in oopix_eqb (model_pixel m q h t j k) obs",
                    lambda i: T['pixel'][1][i], defs=dtext, shard=400)
-    ctx.corr_check('upstream_faults', I, 'mgrid * bool * bool * bool * list bbox * list bbox * list coord * option (list request * list coord * bool)',
+    ctx.corr_check('upstream_faults', I, 'mgrid * bool * bool * bool * list bbox * list bbox * list bbox * list coord * option (list request * list coord * bool)',
                    T['faults'][0],
-                   "fun c => let '(m, has_meta, minimize, bulk, bad, cut, tiles, obs) := c in "
-                   "outcome_eqb (request_with_faults m has_meta minimize bulk [] bad cut tiles) obs",
+                   "fun c => let '(m, has_meta, minimize, bulk, bad, cut, errs, tiles, obs) := c in "
+                   "outcome_eqb (request_with_faults m has_meta minimize bulk [] bad cut errs tiles) obs",
                    lambda i: T['faults'][1][i], defs=dtext, shard=200)
+    ctx.corr_check('clip_coverage_colour', I, 'mgrid * Z * how * bool * coord * Z * Z * option rgba', T['clip'][0],
+                   "fun c => let '(m, q, h, inside, t, j, k, obs) := c in orgba_eqb (model_clip_colour m q h inside t j k) obs",
+                   lambda i: T['clip'][1][i], defs=dtext, shard=400)
     ctx.corr_check('stored_colour', I, 'mgrid * Z * how * bool * coord * Z * Z * option rgba', T['colour'][0],
                    "fun c => let '(m, q, h, tr, t, j, k, obs) := c in orgba_eqb (model_colour m q h tr t j k) obs",
                    lambda i: T['colour'][1][i], defs=dtext, shard=400)
